@@ -5,6 +5,14 @@ from a small grammar (INSERT forms, UPDATE/DELETE x predicate grammar with three
 on the real cursor; the reference (mc/ref/sql3vl.py) is stepped in lock-step. Depth-bounded BFS with dedupe on the
 row multiset. Plus an E2 list of DDL statements x name spellings for the status message.
 
+The predicate grammar includes Snowflake's NULL-safe comparisons (EQUAL_NULL(a, b), a IS [NOT] DISTINCT FROM b; every
+form x operand pair in both argument orders x contexts where FALSE and NULL differ, and a second exhaustive depth-3
+grammar mixing them with a three-valued atom), and INSERT ... SELECT that stores the value of a predicate.
+
+Used sessions: histories  [earlier statement of the session: every route x cause of failure, see USED] + DML  in a fresh
+instance, where T is judged through the writer, through a second session and through raw DuckDB (ground truth), and
+again after a ROLLBACK (no-op) and after closing the writer.
+
 Not demanded: TRUNCATE's status row/rowcount; the second status column of UPDATE beyond being 0; rowcount of DDL.
 """
 from __future__ import annotations
@@ -159,9 +167,25 @@ def _cols_of(p_):
     return [p_[1]]
 
 
+def _ns_atoms(p_, neg=False):
+    """the NULL-safe atoms of a predicate with their polarity (under an odd number of NOTs or not)"""
+    t = p_[0]
+    if t == "not":
+        return _ns_atoms(p_[1], not neg)
+    if t in ("and", "or"):
+        return _ns_atoms(p_[1], neg) | _ns_atoms(p_[2], neg)
+    return {("not:" if neg else "") + shape(p_)} if t in NS_FORMS else set()
+
+
 def gstep(item, acc: core.Acc, tier):
     rows, st = item
+    if st[0] == "insert_select_value":
+        return step((rows, st), acc, tier)  # its class names the predicate already
     pr = st[-1]
+    ns = _ns_atoms(pr)
+    if ns:
+        # predicates with NULL-safe comparisons: one class per set of (form, operand kinds, polarity), whatever the nesting
+        return step((rows, st), acc, tier, ",null_safe=" + "+".join(sorted(ns)))
     cs = _cols_of(pr)
     extra = f",pred={shape(pr)},column_repeats={'yes' if len(set(cs)) < len(cs) else 'no'}"
     return step((rows, st), acc, tier, extra)
@@ -586,7 +610,7 @@ def session_case(item, acc: core.Acc, tier):
 
     ui, via, rows, stmts = item
     route, cause, pre = USED[ui]
-    after = f",after={route}:{cause}" + ("" if via == "execute" else f",via={via}")
+    after = f"after={route}:{cause}"  # one class per earlier statement kind (the DML command only for its own answer)
     rp = {"used": ui, "via": via, "rows": rows, "session_stmts": stmts, "earlier": pre, "sql": [stmt_sql(x) for x in stmts]}
     log = []
     with fresh(connect=False) as (fs, _none):
@@ -622,7 +646,6 @@ def session_case(item, acc: core.Acc, tier):
         if t0 != _msort(rows):
             acc.violation("C04.earlier_statement_leaves_target", f"earlier={route}:{cause}", {"earlier": pre, "outcome": pre_out, "expected": _msort(rows), "got": t0}, rp)
         cur_rows = list(rows)
-        cls = "?"
         for s in stmts:
             cur_rows, exp_n, exp_names = model_step(cur_rows, s)
             want = _msort(cur_rows)
@@ -635,14 +658,13 @@ def session_case(item, acc: core.Acc, tier):
             log.append((got, views, same))
             if exp_n and pre is not None:
                 acc.nontrivial(("used", ui, via, rows, s))
-            cls = classify(s, exp_n) + after
-            judge_answer(acc, cls, rp, s, got, exp_n, exp_names)
+            judge_answer(acc, classify(s, exp_n).split(",")[0] + "," + after, rp, s, got, exp_n, exp_names)
             for who, v in views.items():
                 if v != want:
                     clause = "C04.target_rows" if who == "ground_truth" else f"C04.seen_by_{who}"
-                    acc.violation(clause, cls, {"earlier": pre, "earlier_outcome": pre_out, "sql": stmt_sql(s), "expected": want, "got": v}, rp)
+                    acc.violation(clause, after, {"via": via, "earlier": pre, "earlier_outcome": pre_out, "sql": stmt_sql(s), "expected": want, "got": v}, rp)
             if not same:
-                acc.violation("C04.touches_nothing_else", cls, {"sql": stmt_sql(s)}, rp)
+                acc.violation("C04.touches_nothing_else", after, {"sql": stmt_sql(s), "via": via}, rp)
         # nothing of it is pending: a ROLLBACK of the writer (no transaction was begun) and closing it take nothing back
         want = _msort(cur_rows)
         for then in ("rollback", "close"):
@@ -658,7 +680,7 @@ def session_case(item, acc: core.Acc, tier):
             log.append((then, out, views))
             for who, v in views.items():
                 if v != want:
-                    acc.violation("C04.committed", cls + f",then={then}", {"earlier": pre, "seen_by": who, "expected": want, "got": v, "sql": [stmt_sql(x) for x in stmts]}, rp)
+                    acc.violation("C04.committed", after + f",then={then}", {"via": via, "earlier": pre, "seen_by": who, "expected": want, "got": v, "sql": [stmt_sql(x) for x in stmts]}, rp)
     acc.count("traces")
     acc.obs((ui, via, rows, stmts, log))
 
@@ -734,11 +756,16 @@ def run(ctx: core.Ctx):
         "BFS over table states (row multisets of T drawn from a 6-row universe with NULLs and duplicates); from every "
         "initial row set every statement of the grammar (12 INSERT forms, DELETE/UPDATE x predicate grammar incl. "
         "3-valued atoms, NOT/AND/OR; TRUNCATE), then chained statements from every distinct post-state up to the depth "
-        "bound; + DDL statements x name spellings for the status text; non-trivial = transition affecting >= 1 row"
+        "bound; + DDL statements x name spellings for the status text; + NULL-safe comparison forms x operand pairs "
+        "(both orders) x contexts and a second depth-3 grammar over them; + used sessions: earlier statement (route x "
+        "cause of failure, or successful, or none) x chained DML, T read by the writer, a second session and raw DuckDB, "
+        "then again after ROLLBACK and after close; non-trivial = transition affecting >= 1 row"
     )
     ctx.assumptions = [
         "table state = multiset of rows (set-up of each state is done through raw DuckDB, not through fakesnow)",
         "Snowflake counts rows matched by WHERE as updated even when values do not change (as DuckDB does)",
+        "sessions run with autocommit (the default): DML outside BEGIN..COMMIT is committed when the statement returns",
+        "a BOOLEAN cast to a number is 1 / 0 / NULL",
     ]
     sts = statements(tier)
     init = rowsets(tier)
